@@ -282,7 +282,7 @@ class Unit:
         srcs = list(self.c.store_asserts.get(arr, [])) + list(self.c.store_asserts.get("%s@%s" % (arr, self.ev.loc_label), []))
         for src in srcs:
             try:
-                val = sym.to_int(v) if v.k in ("int", "bool") else None
+                val = sym.to_int(v) if v.k in ("int", "bool") else (v.t if v.k == "flt" else None)
                 if val is None:
                     continue
                 bound = {"value": val, "at": idx}
